@@ -18,6 +18,18 @@ def plan(quick):
         {"proto": "cmp-sign", "n": 3, "t": 2, "kinds": ["fault", "hdr"], "alts": STRUCT, "limit": 30 if quick else 600},
         {"proto": "cmp-keygen", "n": 3, "t": 1, "kinds": ["fault", "hdr"], "alts": STRUCT, "limit": 8 if quick else 200},
     ]
+    # the same handlers with a real worker pool: proofs are verified on worker goroutines, where the handler's recover
+    # cannot reach - one case per (message slot, field name) with the field null / absent
+    p += [
+        {"proto": "cmp-keygen", "n": 3, "t": 1, "kinds": ["fault"], "alts": ["null", "absent"], "pool": True, "fieldwise": True, "limit": 20 if quick else None},
+        {"proto": "cmp-sign", "n": 3, "t": 2, "kinds": ["fault"], "alts": ["null", "absent"], "pool": True, "fieldwise": True, "limit": 12 if quick else None},
+    ]
+    if not quick:
+        p += [
+            {"proto": "cmp-refresh", "n": 3, "t": 1, "kinds": ["fault"], "alts": ["null", "absent"], "pool": True, "fieldwise": True},
+            {"proto": "cmp-presign", "n": 3, "t": 2, "kinds": ["fault"], "alts": ["null", "absent"], "pool": True, "fieldwise": True},
+            {"proto": "doerner-sign", "n": 2, "t": 1, "kinds": ["fault"], "alts": ["null", "absent"], "pool": True, "fieldwise": True},
+        ]
     if not quick:
         p += [
             {"proto": "cmp-refresh", "n": 3, "t": 1, "kinds": ["fault", "hdr"], "alts": STRUCT, "limit": 120},
@@ -45,5 +57,5 @@ def run(tier):
                     "rule": "FaultCat.tla (TLC) enumerates message slot x field path x structural malformation (null, absent, truncated, extended, empty, over-long collections, all-zero / all-one / random bytes) and slot x header malformation (recipient, sender, round, SSID, protocol, nil / empty / junk data, flipped broadcast flag, echo field) x cheater x recipient; each case is delivered to real honest handlers. The reaction must be one Handler.tla allows (ignore, store, clean abort) - a panic, a hang or the death of the process is a violation keyed by the crashing site; non-trivial = the malformed message reached an honest party"})
     if st["reached"] < 2:
         raise vlib.Inconclusive("the malformed messages did not reach the code under test")
-    rep.assumptions += ["handlers run with a nil pool, so a panic in a pool worker goroutine is not observed separately", "memory is bounded by an address-space limit of 12 GiB per driver process; time by a 120 s limit per call"]
+    rep.assumptions += ["handlers run with a nil pool except in the scenarios marked pool (CMP, null / absent fields, one per field name)", "memory is bounded by an address-space limit of 12 GiB per driver process; time by a 120 s limit per call"]
     return rep.finish()
